@@ -5,6 +5,9 @@ package h
 var Replay = map[string]func(c Node) Verdict{
 	"C01": checkC01,
 	"C05": checkC05,
+	"C02": checkC02,
+	"C03": checkC03,
+	"C06": checkC06,
 }
 
 func tableLen(c Node, name string) int {
@@ -43,5 +46,40 @@ func checkC05(c Node) Verdict {
 	want, _ := ExpectedRows(c)
 	// non-trivial: sorting changes the sequence, or the window cuts it
 	v.Nontrivial = !Equal(any(before), any(sorted)) || (hasWindow(q) && len(want) > 0 && len(want) < len(sorted))
+	return v
+}
+
+// C02: projection - exact row sequence (keys and values).
+func checkC02(c Node) Verdict {
+	v := CheckEngine(c, EngineOpts{})
+	want, _ := ExpectedRows(c)
+	q := c["q"].(Node)
+	sel := seq(q["sel"])
+	simple := len(sel) == 1 && sel[0].(Node)["k"] == "item" && (sel[0].(Node)["e"].(Node)["k"] == "col" || sel[0].(Node)["e"].(Node)["k"] == "lit")
+	v.Nontrivial = len(want) > 0 && !simple
+	return v
+}
+
+// C03: GROUP BY / aggregates - exact row sequence (group order is part of the property),
+// repeated in fresh queries because the statement says "identically on every run".
+func checkC03(c Node) Verdict {
+	reps := 3
+	if Tier == "thorough" {
+		reps = 8
+	}
+	v := CheckEngine(c, EngineOpts{Repeats: reps})
+	kept, _ := stageRows(c, "where")
+	if c["fam"] == "group" {
+		v.Nontrivial = num(c["ngroups"]) >= 2
+	} else {
+		v.Nontrivial = len(kept) >= 1 && len(kept) < tableLen(c, "t")
+	}
+	return v
+}
+
+// C06: DISTINCT / UNION [ALL] - exact row sequence.
+func checkC06(c Node) Verdict {
+	v := CheckEngine(c, EngineOpts{})
+	v.Nontrivial = num(c["dups"]) >= 1 // duplicate rows exist, so removing (or keeping) them is observable
 	return v
 }
